@@ -23,9 +23,9 @@ def _run(mode, runs, seed, corpus, workdir, timeout):
     for i, data in enumerate(corpus or []):
         with open(os.path.join(cdir, "seed%d" % i), "wb") as fh:
             fh.write(data)
-    dpath = os.path.join(workdir, "odml.dict")
+    dpath = os.path.join(workdir, "odml-%s.dict" % mode)
     with open(dpath, "w") as fh:
-        fh.write("\n".join(DICT) + "\n")
+        fh.write("\n".join(JSON_DICT if mode == "json" else DICT) + "\n")
     cmd = [sys.executable, os.path.join(HERE, "xml_target.py"), mode, cdir,
            "-runs=%d" % runs, "-seed=%d" % (seed % (2 ** 31) or 1), "-artifact_prefix=" + art,
            "-max_len=2048", "-timeout=30", "-dict=" + dpath, "-print_final_stats=1"]
@@ -42,6 +42,23 @@ def _run(mode, runs, seed, corpus, workdir, timeout):
             "crashes": crashes, "tail": out[-1500:]}
 
 
+JSON_DICT = ['"\\"Document\\""', '"\\"odml-version\\""', '"\\"1.1\\""', '"\\"sections\\""', '"\\"properties\\""',
+             '"\\"name\\""', '"\\"type\\""', '"\\"value\\""', '"\\"id\\""', '"\\"unit\\""', '"\\"uncertainty\\""',
+             '"\\"val_cardinality\\""', '"\\"sec_cardinality\\""', '"\\"prop_cardinality\\""', '"\\"link\\""',
+             '"\\"date\\""', '"\\"dependency\\""', '"null"', '"[1,2]"', '"[]"', '"{}"', '"\\"2-tuple\\""',
+             '"\\"(1;2)\\""', '"\\"int\\""', '"\\"date\\""']
+
+
+def json_corpus():
+    return [b'{"Document": {"author": "a", "sections": [{"name": "s", "type": "t", "properties": [{"name": "p", '
+            b'"value": [1, 2], "type": "int", "unit": "mV", "val_cardinality": [1, 3]}], "sections": [{"name": "c", '
+            b'"type": "t", "sec_cardinality": [null, 2]}]}]}, "odml-version": "1.1"}',
+            b'{"Document": {"sections": [{"name": "s", "type": "t", "id": "1a2b3c4d-0000-4000-8000-00000000000a", '
+            b'"properties": [{"name": "p", "value": ["(1;2)"], "type": "2-tuple"}, {"name": "d", "value": '
+            b'["2020-01-01"], "type": "date"}]}]}, "odml-version": "1.1"}',
+            b'{"Document": {}, "odml-version": "1.1"}']
+
+
 def seed_corpus():
     repo = os.environ.get("VERIF_REPO", "/repo")
     out = []
@@ -55,7 +72,7 @@ def seed_corpus():
     return out
 
 
-def campaign(ctx, runs, seed):
+def campaign(ctx, runs, seed, part=None):
     try:
         import atheris  # noqa
     except ImportError:
@@ -65,7 +82,10 @@ def campaign(ctx, runs, seed):
     workdir = env.fresh_dir("atheris")
     total = 0
     summaries = []
-    plan = [("raw", runs // 2, None), ("raw", runs // 4, seed_corpus()), ("struct", runs // 4, None)]
+    plan = [("raw", runs // 2, None), ("raw", runs // 4, seed_corpus()), ("struct", runs // 4, None),
+            ("json", runs, json_corpus())]   # an empty corpus never gets past json.loads (no gradient in C code)
+    if part is not None:
+        plan = plan[part:part + 1]
     for mode, n, corpus in plan:
         res = _run(mode, max(n, 1000), seed, corpus, workdir, timeout=3600)
         total += res["executed"]
@@ -95,6 +115,8 @@ def replay(case):
     """Re-run one saved fuzzer input through the C16 oracle (no atheris needed)."""
     from ..checks import c16
     data = bytes.fromhex(case["data_hex"])
+    if case.get("mode") == "json":
+        return replay_json(data)
     if case.get("mode") == "struct":
         return [failure("reader.fuzz_crash", "structured libFuzzer input (replay through the fuzz target)",
                         mode="struct")]
@@ -105,4 +127,27 @@ def replay(case):
     fails = []
     for lenient in (False, True):
         fails.extend(c16.arbitrary_body((text, lenient, False))[2])
+    return fails
+
+
+def replay_json(data):
+    """The JSON fuzz target's oracle as a plain function."""
+    import copy
+    import json
+    from odml.tools.dict_parser import DictReader
+    from ..checks import c16
+    from .shape import shaped
+    try:
+        root = json.loads(data.decode("utf-8"))
+    except (UnicodeDecodeError, ValueError, RecursionError):
+        return []
+    if not shaped(root):
+        return []
+    fails = []
+    for lenient in (False, True):
+        res, exc = c16.guarded(lambda: DictReader(show_warnings=False, ignore_errors=lenient)
+                               .to_odml(copy.deepcopy(root)))
+        c16.judge(res, exc, "dictionary reader (fuzzed JSON)", fails,
+                  lenient_must_succeed=bool(lenient and root.get("odml-version") == "1.1"),
+                  gen="atheris-json", lenient=lenient)
     return fails
